@@ -317,12 +317,14 @@ Definition case_mismatch (c : case) : bool :=
 Definition db_of (c : case) : list sprof :=
   map (fun ip => {| sp_ts := Z.of_nat (fst ip) * 1000000000;
                     sp_tree := map (fun n => {| e_p := n_parent n; e_f := n_fn n; e_i := n_id n;
-                                                e_vals := combine (pf_st (snd ip)) (n_vals n) |}) (pf_rows (snd ip)) |})
+                                                e_vals := combine (pf_st (snd ip)) (n_vals n) |}) (pf_rows (snd ip));
+                    sp_funcs := pf_funcs (snd ip) |})
       (combine (seq 0 (length (c_profs c))) (c_profs c)).
 Definition with_window (s : merge_stmt) (from to : Z) : merge_stmt :=
   {| ms_fp := ms_fp s; ms_table := ms_table s; ms_matchers := ms_matchers s; ms_types := ms_types s;
      ms_proj := ms_proj s; ms_from := from; ms_to := to; ms_out := ms_out s; ms_group := ms_group s;
-     ms_order := ms_order s; ms_limit := ms_limit s; ms_tree_agg := ms_tree_agg s; ms_fn_agg := ms_fn_agg s |}.
+     ms_order := ms_order s; ms_limit := ms_limit s; ms_tree_agg := ms_tree_agg s; ms_fn_agg := ms_fn_agg s;
+     ms_distinct := ms_distinct s |}.
 Definition stmt_gives (c : case) (s : merge_stmt) (from to : Z) (handed : list row) : bool :=
   match eval_merge_stmt [c_sel c] (with_window s from to) (db_of c) with
   | Some rows => rows_same rows (group_rows handed)
@@ -345,6 +347,19 @@ Definition sql_judge (stmts : list merge_stmt) (c : case) : Z :=
                Nat.eqb (length (group_rows (dc_rrows d))) (length (dc_rrows d)))
            then 1%Z else 2%Z
        end.
+
+(* what the MergeStackTraces statement of a case evaluates to, as a flame graph total (wrapping sum of the rows under the
+   root); (0, 0) when the statement has no value.  Printed for the cases sql_judge rejects: expected / got in the replay *)
+Definition root_total (rows : list row) : Z :=
+  fold_left (fun a r => if N.eqb (r_parent r) 0 then wrap64 (a + r_total r) else a) rows 0%Z.
+Definition stmt_total (stmts : list merge_stmt) (c : case) : Z * Z :=
+  match nth_error stmts (Z.to_nat (c_stmt c)) with
+  | None => (0, 0)%Z
+  | Some s => match eval_merge_stmt [c_sel c] (with_window s (c_mfrom c) (c_mto c)) (db_of c) with
+              | Some rows => (1, root_total rows)%Z
+              | None => (0, 0)%Z
+              end
+  end.
 
 (* end to end: the flame graph total of the merged tree = sum of the stored root totals; each profile conserves;
    the merged tree is the sum.  Result: 0 fine, 2 violation, 3 only the known node-id collision inside a profile
@@ -477,9 +492,9 @@ Definition hyp_summary (ws : list (list int)) : Z * Z :=
 (* everything the check prints, decoding once: (decode errors, mismatches, spec results, hypothesis summary,
    ids of the cases holding a profile for which the hypothesis of tree_conserves fails under the real hash,
    (ids whose diff view differs from the model, ids whose statements do not evaluate to the rows handed over,
-    number of cases whose statements were judged)) *)
+    number of cases whose statements were judged, totals the rejected statements evaluate to)) *)
 Definition all_results (stmts : list merge_stmt) (ws : list (list int))
-  : list Z * list Z * list (Z * Z) * (Z * Z * Z) * list Z * (list Z * list Z * Z) :=
+  : list Z * list Z * list (Z * Z) * (Z * Z * Z) * list Z * (list Z * list Z * Z * list (Z * (Z * Z))) :=
   let cs := decoded rd_case ws in
   let hs := map (fun c => (c_id c, map (prof_hyp (c_fnh c)) (c_profs c))) cs in
   let rs := flat_map snd hs in
@@ -493,7 +508,9 @@ Definition all_results (stmts : list merge_stmt) (ws : list (list int))
    map fst (filter (fun x => existsb (Z.eqb 2) (snd x)) hs),
    (map c_id (filter (fun c => diff_mismatch (c_diff c) || mp_mismatch (c_profs c) (c_mp c)) cs),
     map fst (filter (fun x => Z.eqb (snd x) 2) js),
-    Z.of_nat (length (filter (fun x => Z.eqb (snd x) 1) js)))).
+    Z.of_nat (length (filter (fun x => Z.eqb (snd x) 1) js)),
+    (* for the rejected ones: (case id, (statement has a value, flame graph total it evaluates to)) *)
+    flat_map (fun x => if Z.eqb (snd (snd x)) 2 then [(c_id (fst x), stmt_total stmts (fst x))] else []) (combine cs js))).
 
 Definition mismatches (ws : list (list int)) : list Z := map c_id (filter case_mismatch (decoded rd_case ws)).
 Definition spec_results (ws : list (list int)) : list (Z * Z) :=
